@@ -474,6 +474,51 @@ def law_cases(rng, n):
         L(call("scale", c, kw=[("alpha", num("-100", "pct"))]), call("rgb", c, num("0"), alias="rgba"), "scale_alpha")
         L(call("change", c, kw=[("lightness", num(p, "pct"))]),
           call("hsl", call("hue", c), call("saturation", c), num(p, "pct"), call("alpha", c), alias="hsla"), "change_lightness")
+        # --- change / adjust / scale compose as documented (theorems C15_change_color_sets_exactly,
+        #     C15_adjust_color_adds_and_clamps, C15_adjust_color_twice_adds, C15_scale_color_interpolates, …)
+        L(call("change", c), c, "change_no_argument")
+        L(call("adjust", c), c, "adjust_no_argument")
+        L(call("scale", c), c, "scale_no_argument")
+        L(call("change", c, kw=[("saturation", num(p, "pct"))]),
+          call("hsl", call("hue", c), num(p, "pct"), call("lightness", c), call("alpha", c), alias="hsla"), "change_saturation")
+        L(call("change", c, kw=[("hue", num(d))]),
+          call("hsl", num(d), call("saturation", c), call("lightness", c), call("alpha", c), alias="hsla"), "change_hue")
+        L(call("change", c8, kw=[("whiteness", num(p, "pct"))]),
+          call("hwb", call("hue", c8), num(p, "pct"), call("blackness", c8), call("alpha", c8)), "change_whiteness")
+        L(call("change", c, kw=[("green", num(v)), ("blue", num(v))]),
+          call("rgb", call("red", c), num(v), num(v), call("alpha", c)), "change_green_blue")
+        for k in ("red", "green", "blue"):
+            L(call("adjust", c, kw=[(k, z)]), c, "adjust_0")
+        for k in ("saturation", "lightness"):
+            L(call("adjust", c, kw=[(k, num("0", "pct"))]), c, "adjust_0")
+        for k in ("whiteness", "blackness"):
+            L(call("adjust", c8, kw=[(k, num("0", "pct"))]), c8, "adjust_0_hwb")
+            L(call("scale", c8, kw=[(k, num("0", "pct"))]), c8, "scale_0_hwb")
+        L(call("scale", c, kw=[("saturation", num("0", "pct"))]), c, "scale_0")
+        L(call("scale", c, kw=[("alpha", num("0", "pct"))]), c, "scale_0")
+        # two adjusts of one channel add up when the first neither rounds nor clamps
+        ch, cur = rng.choice([("red", r), ("green", g), ("blue", b)])
+        a1 = rng.randint(-cur, 255 - cur)
+        b1 = rng.choice(["-300", "-20.5", "-3", "0", "7", "19.75", "300"])
+        L(call("adjust", call("adjust", o, kw=[(ch, num(a1))]), kw=[(ch, num(b1))]),
+          call("adjust", o, kw=[(ch, num(str(F(a1) + F(b1))))]), "adjust_twice_adds")
+        L(call("adjust", call("adjust", o, kw=[("alpha", num("-0.25"))]), kw=[("alpha", num("-0.5"))]),
+          call("adjust", o, kw=[("alpha", num("-0.75"))]), "adjust_twice_adds_alpha")
+        # scale moves the channel p% of the way to 255 (p > 0) or to 0 (p < 0)
+        sp = rng.choice([10, 25, 50, 100, -10, -25, -50, -100])
+        tgt = F(cur) + (F(255 - cur) if sp > 0 else F(cur)) * F(sp, 100)
+        chans = {"red": num(r), "green": num(g), "blue": num(b)}
+        chans[ch] = num(str(tgt.numerator) if tgt.denominator == 1 else f"{float(tgt):.4f}".rstrip("0"))
+        L(call("scale", o, kw=[(ch, num(sp, "pct"))]), call("rgb", chans["red"], chans["green"], chans["blue"]), "scale_interpolates")
+        L(call("scale", c, kw=[("alpha", num("100", "pct"))]), call("rgb", c, num("1"), alias="rgba"), "scale_alpha_100")
+        # lighten… are adjust-color calls (C15_functions_are_adjust_color), grayscale, weighted invert
+        L(call("adjust", c, kw=[("saturation", num("-" + p, "pct"))]), call("desaturate", c, num(p, "pct")), "adjust_saturation_is_desaturate")
+        L(call("adjust", c, kw=[("alpha", num("-" + a))]), call("transparentize", c, num(a)), "adjust_alpha_is_transparentize")
+        L(call("grayscale", c), call("desaturate", c, num("100", "pct")), "grayscale_is_desaturate_100")
+        gry = call("grayscale", c)
+        L(gry, call("rgb", call("red", gry), call("red", gry), call("red", gry), call("alpha", gry), alias="rgba"), "grayscale_is_grey")
+        wv = rng.choice(["10", "25", "50", "75", "100"])
+        L(call("invert", c, num(wv, "pct")), call("mix", call("invert", c), c, num(wv, "pct")), "invert_weight_is_mix")
     return out
 
 
